@@ -177,6 +177,24 @@ class Program:
                 return (c, ci.class_attrs[name])
         return None
 
+    def attr_names(self, cname):
+        """names resolvable on an instance of cname: methods/properties of the MRO plus every
+        attribute stored through `self.<name> = ...` / `out.<name> = ...` in the class body"""
+        names = set()
+        for c in self.mro(cname):
+            ci = self.classes.get(c)
+            if ci is None:
+                continue
+            names |= set(ci.methods) | set(ci.setters) | set(ci.class_attrs)
+            for node in ast.walk(ci.node):
+                if isinstance(node, ast.Attribute) and isinstance(node.ctx, ast.Store) and isinstance(node.value, ast.Name):
+                    if node.value.id in ("self", "out"):
+                        names.add(node.attr)
+            for key in self.post_class_attrs:
+                if key.startswith(c + "."):
+                    names.add(key.split(".", 1)[1])
+        return names
+
     def is_subclass(self, cname, base):
         return base in self.mro(cname)
 
